@@ -230,6 +230,31 @@ func checkC04(c *Ctx, r *Report) {
 			}
 			break
 		}
+		// a named condition (`skipped := !tracked.started && errors.Is(err, sentinel)` … `if skipped`): the merge is true
+		// only through its computed operand
+		if ph, isPhi := v.(*ssa.Phi); isPhi {
+			var computed ssa.Value
+			shape := true
+			for _, e := range ph.Edges {
+				if k, isK := e.(*ssa.Const); isK && k.Value != nil && k.Value.String() == "false" {
+					continue
+				}
+				if computed != nil {
+					shape = false
+				}
+				computed = e
+			}
+			if shape && computed != nil {
+				v = computed
+				for {
+					if u, ok := v.(*ssa.UnOp); ok && u.Op == token.NOT {
+						v = u.X
+						continue
+					}
+					break
+				}
+			}
+		}
 		call, ok := v.(*ssa.Call)
 		if !ok {
 			continue
